@@ -6,8 +6,9 @@ QUERIES = [
     Query("generator_parse", S, "harness_generator_parse", unwind=66, timeout=600, desc="generator_parse for all 33-byte strings: prefix 10/11, x < p, on-curve predicate required; canonical object; x round trip"),
 ]
 for nb in (1, 2, 3):
-    QUERIES.append(Query("blind_sum_n%d" % nb, S, "harness_blind_sum", defs=["NB=%d" % nb], unwind=66, timeout=900, desc="pedersen_blind_sum over %d blinds, every npositive: refuses any blind >= n, result = sum(+) - sum(-) mod n" % nb))
-    QUERIES.append(Query("blind_gen_sum_n%d" % nb, S, "harness_blind_generator_blind_sum", defs=["NB=%d" % nb], unwind=66, timeout=900, desc="pedersen_blind_generator_blind_sum over %d entries, every n_inputs: refuses any factor >= n, last factor = r' - sum +-(v r + r')" % nb))
+    tier = "thorough" if nb == 3 else "quick"
+    QUERIES.append(Query("blind_sum_n%d" % nb, S, "harness_blind_sum", defs=["NB=%d" % nb], unwind=66, timeout=1500, tier=tier, desc="pedersen_blind_sum over %d blinds, every npositive: refuses any blind >= n, result = sum(+) - sum(-) mod n" % nb))
+    QUERIES.append(Query("blind_gen_sum_n%d" % nb, S, "harness_blind_generator_blind_sum", defs=["NB=%d" % nb], unwind=66, timeout=1500, tier=tier, desc="pedersen_blind_generator_blind_sum over %d entries, every n_inputs: refuses any factor >= n, last factor = r' - sum +-(v r + r')" % nb))
 for pc, nc in ((0, 0), (1, 0), (0, 1), (1, 1), (2, 1), (1, 2), (2, 2)):
     QUERIES.append(Query("tally_%d_%d" % (pc, nc), S, "harness_tally", defs=["PC=%d" % pc, "NC=%d" % nc], unwind=66, timeout=900, desc="verify_tally with %d positive / %d negative commitments: order, negation, == infinity test" % (pc, nc)))
 LEVEL_TEXT = ("Bounded model checking of the real generator/Pedersen module at real width: exact failure sets (blind >= n), scalar bookkeeping of both blind-sum helpers against a 320-bit reference with the product uninterpreted, "
